@@ -21,6 +21,7 @@ fn main() {
         "c05" => drivers::c05::drive(&rest),
         "c06" => drivers::c06::drive(&rest),
         "c14" => drivers::c14::drive(&rest),
+        "c15" => drivers::c15::drive(&rest),
         other => {
             eprintln!("unknown command {other}");
             2
